@@ -22,6 +22,7 @@ LEVEL_TEXT += (" (E5.eq) the order and equality of values (which decide set memb
 
 
 LEVEL_TEXT += (' (E5.ast) the checker performs no shrinking / reordering call on a collection that is a field of the AST; each attribute of an attribute statement is handed to Attribute::execute / execute_lazy, the only place that expands shorthands.')
+LEVEL_TEXT += (' (E7.kind) parse_set builds set forms only and parse_list list forms only.')
 def run(prog, rep):
     nd = C02.dispatchers(prog, rep)
     rep.floor("E8.d", nd, 40, "dispatcher arms")
@@ -56,6 +57,9 @@ def run(prog, rep):
     e5.variable_map_shape(prog, rep, "E5.var")
     e5.mutability_flags(prog, rep)
     e5.no_dropped_elements(prog, rep)
+    from . import C07
+    nlk = C07.literal_kinds(prog, rep)
+    rep.floor("E7.kind", nlk, 2, "collection literal parsers")
     nk = e5.checker_keeps_ast(prog, rep)
     rep.floor("E5.ast", nk, 30, "checker functions")
     e5.no_text_keyed_tables(prog, rep)
